@@ -237,7 +237,16 @@ func RunScheduledLazy(w *world.World, clients []func(p *world.Proc) string, lazy
 				continue
 			}
 			start(i)
-			sc.Step(i, act)
+			before := sc.CountMarks(i, "ret:")
+			stepped := sc.Step(i, act)
+			if wrap != nil && act == sched.Run && stepped {
+				// call-granularity view of a single storage command: the call returned (whole call) or not yet (half)
+				if sc.CountMarks(i, "ret:") > before {
+					eff = append(eff, fmt.Sprintf("c%d", i))
+				} else {
+					eff = append(eff, fmt.Sprintf("h%d", i))
+				}
+			}
 		}
 		if sc.Hung {
 			break
